@@ -9,7 +9,7 @@ import (
 )
 
 // Content classes.
-var Classes = []string{"photo", "noise", "flat", "pal2", "pal3", "pal4", "pal5", "pal16", "pal17", "pal64", "pal256", "pal257", "checker", "gradient", "tiles", "pal1"}
+var Classes = []string{"photo", "noise", "flat", "pal2", "pal3", "pal4", "pal5", "pal16", "pal17", "pal64", "pal256", "pal257", "checker", "gradient", "tiles", "pal1", "bands", "pillarbox"}
 
 // Alpha patterns.
 var Alphas = []string{"opaque", "binary", "levels3", "levels16", "levels17", "gradient", "noise", "onepix", "alltransparent", "edge1_254", "transparentrgb", "blocks"}
@@ -147,6 +147,27 @@ func fillColor(r *rand.Rand, m *image.NRGBA, class string) {
 					c = p[r.Intn(len(p))]
 				}
 				set(x, y, c)
+			}
+		}
+	case class == "bands" || class == "pillarbox":
+		// noise / texture with a wide flat band (horizontal for "bands", a vertical side bar for
+		// "pillarbox"): long copy runs next to busy content, entropy tiles with no literal at all.
+		flat := color.NRGBA{uint8(r.Intn(256)), uint8(r.Intn(256)), uint8(r.Intn(256)), 255}
+		lo, hi := h/3, 2*h/3
+		if class == "pillarbox" {
+			lo, hi = 0, max(1, w/4)
+		}
+		for y := 0; y < h; y++ {
+			for x := 0; x < w; x++ {
+				in := y >= lo && y < hi
+				if class == "pillarbox" {
+					in = x >= lo && x < hi
+				}
+				if in {
+					set(x, y, flat)
+				} else {
+					set(x, y, color.NRGBA{uint8(r.Intn(256)), uint8(r.Intn(256)), uint8(r.Intn(256)), 255})
+				}
 			}
 		}
 	default: // photo-like: smooth low-frequency field + mild texture
